@@ -15,7 +15,7 @@ meta = {
     "summary": agent.get("summary"), "needs": agent.get("needs"), "files_changed": agent.get("files_changed"),
     "origin": "written by an independent sub-agent that saw only the property text and a scratch worktree of /repo (nothing from /verif)",
     "confirmed_by_me": {"how": "tools/verify_seed.sh: demo.py with the change / without it; full pytest suite with the change (PYTHONWARNINGS=ignore, timestamp tests serially)", "result": res[-1] if res else None},
-    "base_commit": "0174624 (pinned snapshot)",
+    "base_commit": os.environ.get("SEED_BASE", "0174624 (pinned snapshot)"),
     "detected_by": None if det == "-" else det.split(","),
     "detection_note": note,
     "how_to_run": "git -C /repo apply /verif/seeded/%s/patch.diff && (cd /verif && ./check %s --tier quick); git -C /repo checkout -- ." % (sid, prop),
